@@ -160,6 +160,14 @@ func checkSyntaxMessage(input string, lang int, msg string) (string, string) {
 }
 
 var c19Damage = []func(r *fw.Rand, s string) string{
+	// a carriage return on its own is an ordinary blank, not a line end
+	func(r *fw.Rand, s string) string { return "(1 +\r " + s },
+	func(r *fw.Rand, s string) string { return "(" + strings.ReplaceAll(s, " ", "\r") + "\r#" },
+	func(r *fw.Rand, s string) string { return "x = 1\r\ry = (2 +\n\r" + s },
+	// a byte-order mark (or other invisible characters) at the very start is part of the input
+	func(r *fw.Rand, s string) string { return "\ufeff(" + s },
+	func(r *fw.Rand, s string) string { return "\ufeff[1,\n 2,\n (" + s },
+	func(r *fw.Rand, s string) string { return "\u200b" + s + " )" },
 	func(r *fw.Rand, s string) string { return "(" + s },
 	func(r *fw.Rand, s string) string { return "[" + s },
 	func(r *fw.Rand, s string) string { return "(\n" + s + "\n" },
